@@ -78,7 +78,7 @@ package processors
 //@ ghost at return: Failed = old(Failed) || result1 != nil
 //@ ghost at return: PropsAt = store(PropsAt, componentName, store(PropsAt[componentName], PropsLen[componentName], toany(d)))
 //@ ghost at return: PropsLen = store(PropsLen, componentName, PropsLen[componentName] + 1)
-//@ property C08 C09 C07
+//@ property C08 C09 C07 C10
 //@ requires [properties-wellformed] forall(k, int, implies(0 <= k && k < len(properties), PointOK(properties[k])), properties[k])
 //@ requires [properties-distinct] forall(j, int, forall(k, int, implies(0 <= j && j < k && k < len(properties), properties[j] != properties[k])))
 //@ requires [candidates-wellformed] forall(k, int, forall(i, int, implies(0 <= k && k < len(properties) && 0 <= i && i < len(properties[k].Injects) && properties[k].Injects[i] != nil, properties[k].Injects[i].Base != nil && properties[k].Injects[i].Type != nil)))
@@ -135,7 +135,7 @@ package processors
 //@ ghost at return: Failed = old(Failed) || result1 != nil
 //@ ghost at return: PropsAt = store(PropsAt, componentName, store(PropsAt[componentName], PropsLen[componentName], toany(d)))
 //@ ghost at return: PropsLen = store(PropsLen, componentName, PropsLen[componentName] + 1)
-//@ property C06 C07 C09
+//@ property C06 C07 C09 C10
 //@ ghost after call GetMetas: PosSnap = store(PosSnap, _idx, MetasPos)
 //@ requires [registry-set] d.Registry != nil && DefInv(d.Registry)
 //@ requires [properties-wellformed] forall(k, int, implies(0 <= k && k < len(properties), PointOK(properties[k])), properties[k])
@@ -168,7 +168,7 @@ package processors
 //@ ghost at return: Failed = old(Failed) || result1 != nil
 //@ ghost at return: PropsAt = store(PropsAt, componentName, store(PropsAt[componentName], PropsLen[componentName], toany(d)))
 //@ ghost at return: PropsLen = store(PropsLen, componentName, PropsLen[componentName] + 1)
-//@ property C06 C09
+//@ property C06 C09 C10
 //@ requires [registry-set] d.Registry != nil && DefInv(d.Registry)
 //@ requires [properties-wellformed] forall(k, int, implies(0 <= k && k < len(properties), PointOK(properties[k]) && properties[k].args != nil), properties[k])
 //@ requires [properties-distinct] forall(j, int, forall(k, int, implies(0 <= j && j < k && k < len(properties), properties[j] != properties[k])))
